@@ -799,7 +799,7 @@ func propC05(c *Ctx) int {
 		"closure invariants (harness/core/zz_verif_c05.go vCheckClosure) asserted on the catalog structs of every ACCEPTED document: interaction key == id == '<protocol> <method> <path>'; every tag named by an interaction exists and lists it exactly once under its protocol, and vice versa; pathVariables present exactly when the path has {parameters}, and its schema has exactly those parameters as properties; response codes 1xx-5xx with a body; JSIGHT version 0.3; every name in the usedUserTypes / usedUserEnums lists the JSON emitter builds for each schema (types, path variables, query, request/response headers and bodies, params, result) is a defined type / enum and occurs once",
 		"used names model (HUsedModel): a response body assembled from a symbolic subset of 10 reference forms (property of a type, array of a type, or-rule, enum rule, type union, allOf on a nested object and on the root, key shortcut, type rule, additionalProperties), one symbolically chosen form naming an undefined type/enum: rejected exactly then; otherwise closure, and usedUserTypes = the types the selected forms name (observation, not asserted: the emitter never fills usedUserEnums — no Add call exists in the repository; no property demands it)",
 		"document families: projects in which no directive is left (empty, blanks, comments, MACRO definitions only, an INCLUDE of a comment file); path-variable model (Path directives on URL level, method level, on a longer path sharing the prefix, in both orders — all symbolic); TAG/Tags model with symbolic tag choices (up to three names incl. the same tag twice, adjacent or not, and an undeclared tag, URL-level and method-level Tags, HTTP and JSON-RPC); representative documents with a 2-byte symbolic substitution hole (sampled cuts in the quick tier); INCLUDE-split and MACRO/PASTE rewrites of the skeletons",
-		"outside: the JSON rendering itself (encoding/json)",
+		"outside: the closure of the names in the serialised bytes is decided under C04 (shape walker: usedUserTypes / usedUserEnums / tags / tag groups name defined entities)",
 		contractLoc, contractRune,
 	}, map[string]interface{}{})
 }
@@ -877,7 +877,7 @@ func propC02(c *Ctx) int {
 	return c.Finish("model_checking", []string{
 		"abstract model (harness/core/zz_verif_c02.go): INFO (title, version, description), up to two SERVERs, TAGs, TYPEs (jsight and regex), ENUMs, an optional JSON-RPC method (Params / Result / Description / Tags variants), 1..2 HTTP interactions (all five methods x path pool, request with Headers and Body in either order, response bodies any / @type / [@type] / inline schema, own Tags / URL-level Tags / path tag, annotation, description, query, request none/any/schema/headers+body, OperationId, Tags or path tag, 1..2 responses in either order with any/@type/inline schema bodies, response headers and annotations), rendered with URL grouping or stand-alone methods, explicit ( ) or implicit contexts, // or /* */ annotations",
 		fmt.Sprintf("9 feature groups (tags: declared tags x own (one or two, either order) / URL-level Tags x grouping x paths; entities; responses; request/description/query (none, body, noFormat, example, example+noFormat, htmlFormEncoded); grouping/explicit contexts; second interaction; JSON-RPC x tags; method x path x query x enums; LAYOUT of the rendering x grouping x explicit contexts x annotation style x entities: as rendered / CRLF / CR / comments, blank lines and block comments before top-level directives / definitions moved into an INCLUDEd file in a sub-directory / all interactions moved into a MACRO pasted at root / quoted paths / every line indented by a tab and a blank) are made symbolic together with seeded settings of the rest; in addition each mask job makes %d (1 interaction) / %d (2 interactions) of the ~38/60 feature choices symbolic (seeded selection, the solver explores all their combinations) and fixes the rest (seeded); %d+%d jobs this run; the expected catalog digest — including, for every schema and enum, the content tree / rules / notes / used types that the JSON emitter hands to encoding/json (vDigestDeep) — is computed from the model alone and compared entry by entry (nothing missing, nothing invented, order, attachment to the right interaction/response), followed by the C05 closure invariants", bits1, bits2, jobs1, jobs2),
-		"outside: JSON emission (encoding/json), more than two HTTP interactions + one JSON-RPC method, combinations of more feature choices than the symbolic ones of a job, MACRO/PASTE and INCLUDE renderings (covered relationally by C10/C09), layout variants (C08)",
+		"outside: the JSON bytes (decided for the same model-rendered documents under C04 / C16), more than two HTTP interactions + one JSON-RPC method, combinations of more feature choices than the symbolic ones of a job, MACRO/PASTE and INCLUDE renderings (covered relationally by C10/C09), layout variants (C08)",
 		contractLoc, contractRune,
 	}, map[string]interface{}{"model_roundtrips": reached})
 }
